@@ -37,12 +37,7 @@ def _decode(v, ty):
 
 
 def replay_command(method, params, clause_text):
-    def replay(o):
-        m = o.get("model") or {}
-        major = m.get("self._connection.api_version.major", 1)
-        minor = m.get("self._connection.api_version.minor", 10)
-        if not isinstance(major, int) or not isinstance(minor, int):
-            return None, "model has no API version"
+    def replay_one(o, m, major, minor):
         args = {p: _decode(m.get(p), ty) for p, ty in params.items()}
         cli, sent, loop = _client(major, minor)
         try:
@@ -64,6 +59,21 @@ def replay_command(method, params, clause_text):
             return (not good), f"{method}(**{args!r}) with API {major}.{minor}: clause `{text}` is {good} on the request actually sent: {str(sent[0]).strip()!r}"[:700]
         finally:
             loop.close()
+
+    def replay(o):
+        m = o.get("model") or {}
+        major = m.get("self._connection.api_version.major")
+        minor = m.get("self._connection.api_version.minor")
+        # the counter-model does not always name the negotiated version (it sits behind the connection object): then the argument values
+        # are tried at the versions around every threshold the commands know (1.0, 1.2, 1.4, 1.10)
+        versions = [(major, minor)] if isinstance(major, int) and isinstance(minor, int) else [(1, 0), (1, 2), (1, 4), (1, 10)]
+        last = (None, "no version tried")
+        for mj, mn in versions:
+            r = replay_one(o, m, mj, mn)
+            if r[0] is True:
+                return r
+            last = r
+        return last
     return replay
 
 
